@@ -150,24 +150,28 @@ PROPS['C08'] = dict(
 
 PROPS['C04'] = dict(
     modules=['contracts.dtw_py', 'contracts.dtw_c'],
-    contracts=['dtw.warping_paths'],
-    lemmas=[],
+    contracts=['dtw.warping_paths', 'dtw.warping_paths#endpsi'],
+    lemmas=['RowAllInf', 'RowLeadInf', 'RowMinLower', 'RowMinGreatest', 'ArgMinRow', 'PsiColLower', 'PsiColGreatest', 'ArgMinCol',
+            'PsiColZero', 'RowMinGreatestSqrt', 'ArgMinRowSqrt', 'PsiColGreatestSqrt', 'ArgMinColSqrt'],
     bounded=dict(_CML, **{'c-wrapper-native-sweep': lambda run: _native_sweep(
         'wps_native.py',
         'random small pairs x window/penalty/psi/max_step/inner distance/psi_neg: dtw.warping_paths_fast (full), '
         'warping_paths_fast(compact=True) + dtw_cc.wps_expand_slice (whole range and a sub-range) against dtw.warping_paths',
-        250, 2500)(run)}),
+        2000, 20000)(run)}),
     level='proof',
     level_text='Python: dtw.warping_paths is proved (unbounded) to return a (len1+1)x(len2+1) matrix whose every cell is '
                'result_fn of the accumulated-cost recurrence W (inf outside the band / beyond max_step) and a distance equal '
                'to result_fn(W(r,c)) -- the value dtw.distance is proved to return (C01) -- for window, penalty, max_step, '
                'begin-psi, both inner distances. C engine (compact layout, expansion, slices): bounded chains against the '
                'path-enumeration oracle only.',
-    level_note='End-of-series psi (the -1 marking and arg-min selection on NumPy slices) and keep_int_repr=True are not yet '
-               'under contract for the Python routine; the C cost-matrix family has recorded genuine defects (known_findings.json).',
+    level_note='Second contract stage (dtw.warping_paths#endpsi): with end-of-series psi relaxation the returned value is '
+               'result_fn of Dend (the value dtw.distance is proved to return), selected by np.argmin over the reversed last '
+               'column / row (argmin modelled as "first minimal element", 13 induction / derived lemmas connect it to the folds '
+               'PsiCol / WRowMin, also through the element-wise square root), for keep_int_repr True and False, psi_neg=False. '
+               'The -1 marking (psi_neg=True, NumPy slice assignment) is not under contract; the C cost-matrix family is bounded only.',
     trusted_base=[PY_A1, A3_NUMPY, A7],
     assumptions=[PY_A1, A3_NUMPY, A7],
-    not_decided=['Python: end-of-series psi / psi_neg marking, keep_int_repr=True, max_dist (C03)',
+    not_decided=['Python: the -1 marking of psi_neg=True, max_dist (C03)',
                  'C: unbounded proof of dtw_warping_paths_ndim / dtw_expand_wps(_slice) (bounded only)'],
 )
 
@@ -179,7 +183,7 @@ PROPS['C05'] = dict(
         'paths_native.py',
         'random small pairs x window/penalty/psi/inner distance x {warping_path, warping_path_fast, best_path on a Python matrix, '
         'best_path on a C matrix}: contiguous monotone steps, inside the band, psi-relaxed corners, accumulated cost == distance',
-        150, 2000)(run)}),
+        1500, 15000)(run)}),
     level='exploration',
     level_text='Bounded stand-in only: the traceback routines are not under contract. Every path route of both engines is swept '
                'on small inputs against the path definition of the property; the C routines additionally run in sanitizer chains.',
@@ -413,7 +417,7 @@ PROPS['C03'] = dict(
         'pruning_native.py',
         'random small pairs (lengths <= 6, ndim 1..2) x window/penalty/psi/inner distance x four routes (Python/C distance, '
         'Python/C cost matrix): max_dist at 0.5/0.9/1.1/2.0 times the unbounded distance must give that distance resp. inf; '
-        'use_pruning where the Euclidean distance is a valid upper bound must give the unpruned result', 120, 1500)},
+        'use_pruning where the Euclidean distance is a valid upper bound must give the unpruned result', 1500, 20000)},
     level='exploration',
     level_text='Bounded stand-in only: the pruning invariant (every skipped cell has all predecessors above the bound) is not '
                'under contract; the real engines are swept against their own unbounded results on small inputs.',
@@ -454,7 +458,7 @@ PROPS['C18'] = dict(
         'random small pairs and self-comparisons x gamma/tau/delta/delta_factor x penalty (incl. None) x window x only_triu: Python '
         'matrix against the recurrence recomputed cell by cell; warping_paths_affinity_fast full and compact+wps_expand_slice against '
         'Python; use_c dispatch; LocalConcurrences.kbest_matches (Python and C compact, restart and continued calls): contiguous '
-        'monotone paths through positive cells, no cell used twice', 150, 1500)(run)}),
+        'monotone paths through positive cells, no cell used twice', 1000, 8000)(run)}),
     level='proof',
     level_text='Python: dtw.warping_paths_affinity is proved (unbounded) to fill every cell of the (len1+1)x(len2+1) matrix '
                'with the affinity recurrence A of specs/affinity.py (exp(-gamma*diff^2) plus best penalised predecessor, or '
@@ -499,7 +503,7 @@ PROPS['C17'] = dict(
         'nw_native.py',
         'pairs of sequences over {A,B,C} (lengths 0..3 sampled, some up to 5) x substitution (default, dictionary with gap 1/0.5/2, '
         'max/min orientation) x traceback order: value == exhaustive maximum over all global alignments; best_alignment gives '
-        'equal-length gapped sequences that reduce to the inputs, no gap/gap column, score == value', 300, 0)(run)},
+        'equal-length gapped sequences that reduce to the inputs, no gap/gap column, score == value', 1500, 0)(run)},
     level='proof',
     level_text='dp.dp as needleman_wunsch calls it (default substitution function executed; an arbitrary callback as an '
                'uninterpreted function with a constant gap cost) is proved to fill the score matrix with the alignment-cost '
@@ -521,7 +525,7 @@ PROPS['C12'] = dict(
     contracts=[],
     lemmas=[],
     bounded=dict({'c12-native-sweep': _native_sweep('dba_native.py',
-        'random collections (1..5 series, lengths 2..5, ndim 1..3, list / matrix) x initial average x mask x window / penalty x engine: one DBA step is the mean along the library path, that path is optimal, range, fixed point, mask, fit does not get worse, C = Python for unique paths, dba_loop step bound', 200, 2000)}, **{'c-dba-chains': lambda run: __import__('bounded.c_sweeps', fromlist=['x']).sweep_c_dba_for(run, 'C12')}),
+        'random collections (1..5 series, lengths 2..5, ndim 1..3, list / matrix) x initial average x mask x window / penalty x engine: one DBA step is the mean along the library path, that path is optimal, range, fixed point, mask, fit does not get worse, C = Python for unique paths, dba_loop step bound', 1500, 10000)}, **{'c-dba-chains': lambda run: __import__('bounded.c_sweeps', fromlist=['x']).sweep_c_dba_for(run, 'C12')}),
     level='exploration',
     level_text='Bounded stand-in only. The averaging step is swept on small collections in both engines; the C routines dtw_dba_ptrs / dtw_dba_matrix additionally run in sanitizer chains (C08).',
     level_note='No unbounded claim: dba() builds lists of aligned points through warping_path (C05, not under contract).',
@@ -536,7 +540,7 @@ PROPS['C13'] = dict(
     contracts=[],
     lemmas=[],
     bounded=dict({'c13-native-sweep': _native_sweep('subseq_native.py',
-        'random (query 1..4, series 1..7, ndim 1..2) x penalty x engine: matching function == min over start points of the penalised DTW of the query and series[b..e] / len(query) (independent DP per segment); best match value / segment / path; kbest_matches distinct end points, ascending values, length limits, overlap, repeated iteration; Python == C', 200, 2500)}),
+        'random (query 1..4, series 1..7, ndim 1..2) x penalty x engine: matching function == min over start points of the penalised DTW of the query and series[b..e] / len(query) (independent DP per segment); best match value / segment / path; kbest_matches distinct end points, ascending values, length limits, overlap, repeated iteration; Python == C', 2000, 20000)}),
     level='exploration',
     level_text='Bounded stand-in only: the matching function of SubsequenceAlignment is compared with an exhaustive minimum over all start points on small inputs.',
     level_note='dtw.warping_paths, which computes the matrix, is under contract for begin-psi only (C04); the end-psi stage and the class logic are not.',
@@ -551,7 +555,7 @@ PROPS['C14'] = dict(
     contracts=[],
     lemmas=[],
     bounded=dict({'c14-native-sweep': _native_sweep('knn_native.py',
-        'random query x 1..6 candidates (duplicates, ties) x k in 1..N+1 / None x window / penalty / max_dist / max_value x use_lb x use_c x ndim x sequences of kbest_matches / best_match calls on one object: k smallest exhaustive distances, ascending, right indices, same answers as a fresh object', 300, 3000)}),
+        'random query x 1..6 candidates (duplicates, ties) x k in 1..N+1 / None x window / penalty / max_dist / max_value x use_lb x use_c x ndim x sequences of kbest_matches / best_match calls on one object: k smallest exhaustive distances, ascending, right indices, same answers as a fresh object', 3000, 30000)}),
     level='exploration',
     level_text='Bounded stand-in only: SubsequenceSearch is compared with an exhaustive independent DTW on small candidate lists, including call histories.',
     level_note='The callee contracts exist (dtw.distance C01, dtw.lb_keogh C09: LB computed as specified), but LB <= DTW itself is not machine-checked and the heap / cache logic is not under contract.',
@@ -577,13 +581,13 @@ PROPS['C15'] = dict(
 )
 
 PROPS['C16'] = dict(
-    modules=[],
-    contracts=[],
+    modules=['contracts.kmeans_py'],
+    contracts=['clustering.kmeans._distance_with_params'],
     lemmas=[],
     bounded=dict({'c16-native-sweep': _native_sweep('kmeans_native.py',
         'random data sets (3..8 series, ndim 1..2, duplicates) x k x seeds x initialisation (k-means++, random, sample size) x drop_stddev x window / penalty x use_c x serial / a few parallel fits: exactly k index sets 0..k-1 partitioning all series, k means, every series with a nearest mean (recomputed with the pure-Python distance), iterations <= max_it + 1', 150, 1500)}),
     level='exploration',
-    level_text='Bounded stand-in only: KMeans.fit is swept on small data sets.',
+    level_text='The assignment step clustering.kmeans._distance_with_params (pure-Python, 1-D) is proved to return the first mean at minimal dtw.distance (callee contract C01 as an opaque value). Everything else of KMeans.fit is a bounded stand-in: swept on small data sets.',
     level_note='Randomised seeding, multiprocessing and DBA (C12) are outside the verifier.',
     trusted_base=[],
     assumptions=['bounded: small random inputs, stated in the sweep'],
